@@ -97,7 +97,7 @@ def violStr : Viol → String
   | .undefinedType n => s!"type {String.ofList n} is mentioned but not defined"
   | .privateAcross f n => s!"{String.ofList f}.rs names {String.ofList n}, which is private to types.rs"
   | .serdeAsMismatch it f => s!"{String.ofList it}.{String.ofList f}: the serde_as adapter and the member type disagree about Option (or the struct lacks #[serde_as])"
-  | .bodyCap it t ser mp ar => s!"{String.ofList it}.body is {if ser then "sent" else "extracted"} as JSON/form but {String.ofList t} has no {if ser then "Serialize" else "Deserialize"}{if mp then " (through a map)" else if ar then " (through a nested array)" else ""}"
+  | .bodyCap it t ser mp ar w => s!"{String.ofList it}.body is {if ser then "sent" else "extracted"} as JSON/form but {String.ofList t} has no {if ser then "Serialize" else "Deserialize"}{if mp then " (through a map)" else if ar then " (through a nested array)" else if w then " (wrapped body type)" else ""}"
   | .headerOptMismatch it => s!"{String.ofList it}: the HeaderMap conversion reads a non-Option member with `if let Some(..)`"
   | .serde it t ser m a w => s!"{String.ofList it} has {if ser then "Serialize" else "Deserialize"} but its member type {String.ofList t} has not{if m then " (through a map)" else if a then " (through a nested array)" else if w then " (wrapped payload of a response enum)" else ""}"
   | .nestedNoValidate it t => s!"{String.ofList it}: validate(nested) on a member of type {String.ofList t}, which has no Validate"
@@ -113,7 +113,10 @@ def violStr : Viol → String
   | .aliasCycle it => s!"type alias {String.ofList it} expands to itself"
   | .missingImport n => s!"derive({String.ofList n}) is used unqualified but not imported"
 
-def whyOf (m : Mod) : String := ", ".intercalate ((violations m).map violStr |>.eraseDups |>.take 6)
+/-- the violations without a class first (they are what makes a verdict a VIOLATION) -/
+def whyOf (m : Mod) : String :=
+  let vs := violations m
+  ", ".intercalate (((vs.filter fun v => (classOf m v).isNone) ++ (vs.filter fun v => (classOf m v).isSome)).map violStr |>.eraseDups |>.take 6)
 
 def genOp : Handler := fun req => do
   let inp ← field req "in"
